@@ -50,7 +50,17 @@ RouteTags(r) ==
               \E i \in DOMAIN r.latA[c] : r.latT[c][i][1] # r.latA[c][i][1] + r.kx \/ r.latT[c][i][2] # r.latA[c][i][2] + r.ky)
           THEN {"translated-raw-route-differs"} ELSE {})
     \cup (IF ~r.dispShape \/ r.dispDevE12 > 1000 THEN {"translated-displayed-route-differs"} ELSE {})
-    \cup {<<"symmetry-changes-route-cost", r.sym[t].t>> : t \in {t \in DOMAIN r.sym : ~r.sym[t].thrown /\
+    \* (tagged apart: every connector whose cost changes has an end lying exactly on the boundary of a shape -- a point that is
+    \*  neither inside nor outside, for which the orientation tests of the visibility code have no symmetric answer)
+    \cup {LET CC == {c \in DOMAIN r.latA : Integral(r.latA[c]) /\ Integral(r.sym[t].lat[c]) /\ ~SameCost(r.latA[c], r.sym[t].lat[c], r.P)}
+              OnEdge(p, a, b) == (b[1] - a[1]) * (p[2] - a[2]) = (b[2] - a[2]) * (p[1] - a[1])
+                                 /\ (p[1] - a[1]) * (p[1] - b[1]) <= 0 /\ (p[2] - a[2]) * (p[2] - b[2]) <= 0
+              OnBoundary(p) == \E sh \in DOMAIN r.shapes : \E j \in DOMAIN r.shapes[sh] :
+                                   LET a == r.shapes[sh][j]  b == r.shapes[sh][(j % Len(r.shapes[sh])) + 1] IN OnEdge(p, a, b)
+              EndOnBoundary(c) == LET u == Unit(r.latA[c]) IN OnBoundary(u[1]) \/ OnBoundary(u[Len(u)])
+          IN  IF \A c \in CC : EndOnBoundary(c) THEN <<"symmetry-changes-route-cost:an-end-lies-on-a-shape-boundary", r.sym[t].t>>
+              ELSE <<"symmetry-changes-route-cost", r.sym[t].t>>
+          : t \in {t \in DOMAIN r.sym : ~r.sym[t].thrown /\
               \E c \in DOMAIN r.latA : Integral(r.latA[c]) /\ Integral(r.sym[t].lat[c]) /\ ~SameCost(r.latA[c], r.sym[t].lat[c], r.P)}}
 VpscTags(r) == (IF r.A # r.B THEN {"repeat-solver-positions-differ"} ELSE {})
                \cup (IF ~r.shape \/ r.devE12 > 1000 THEN {"translated-solution-differs"} ELSE {})
